@@ -13,10 +13,10 @@ namespace {
 enum Kind { K_WRITE, K_READ, K_FREE, K_USED, K_CLEAR };
 const char *kname[] = {"write", "read", "free", "used", "clear"};
 
-struct Hnd { PShmBuffer *b = nullptr; int proc = 0; size_t size_arg = 0; bool live = false; };
+struct Hnd { PShmBuffer *b = nullptr; int proc = 0; size_t size_arg = 0; bool live = false; int lock_obj = -1, seg_obj = -1; bool adopted_empty = false, created = false; };
 struct St {
   size_t cap = 0;                 // creator's S
-  Hnd hs[4]; int nh = 0;
+  Hnd hs[4]; int nh = 0, nh_reserved = 0;
   std::deque<uint8_t> model;      // sequential mode: stepped after every call
   std::vector<linz::Op> hist;
   uint32_t next_byte = 1;
@@ -137,12 +137,18 @@ void ops_loop(int hi, int n) {
   }
 }
 
-int open_handle(size_t size_arg) {
-  Hnd &H = S->hs[S->nh];
+int open_handle(size_t size_arg, bool racing_creator = false) {
   PError *err = nullptr;
-  H.b = HX_API("p_shm_buffer_new", S->nh, false, p_shm_buffer_new("vp-buffer", size_arg, &err));
-  if (!H.b) violate("new_failed", S->nh ? "open_existing" : "create", "p_shm_buffer_new(%zu) returned NULL (native %d)", size_arg, err ? p_error_get_native_code(err) : 0);
+  int slot = S->nh_reserved++;
+  PShmBuffer *b = HX_API("p_shm_buffer_new", slot, false, p_shm_buffer_new("vp-buffer", size_arg, &err));
+  if (!b) violate("new_failed", racing_creator ? "concurrent_first_time_creators" : slot ? "open_existing" : "create", "p_shm_buffer_new(%zu) returned NULL (native %d)%s", size_arg, err ? p_error_get_native_code(err) : 0,
+                  racing_creator ? " while another process was creating the same name" : "");
+  Hnd &H = S->hs[S->nh];
+  H.b = b;
   H.proc = cur()->proc; H.size_arg = size_arg; H.live = true;
+  H.lock_obj = kern::last_sem_obj(); H.seg_obj = kern::last_shm_obj();
+  H.created = kern::last_shm_created();
+  H.adopted_empty = !kern::last_shm_created() && kern::last_fstat_size() == 0;      // a handle made for a segment whose size the library had read as 0
   return S->nh++;
 }
 
@@ -161,13 +167,22 @@ void root() {
     uint32_t r = gen(16);
     if (r < 8) args[i] = S->cap; else if (r < 15) args[i] = S->cap + 1 + gen(5000); else if (S->cap > 1) { args[i] = 1 + gen((uint32_t)S->cap - 1); S->smaller_handle_present = true; }
   }
+  // in a third of the concurrent runs a second process opens the same fresh name at the same time as the creator
+  bool racing = S->concurrent && nh >= 2 && gen(3) == 0;
+  if (racing) args[1] = S->cap;       // same size on both sides: whoever wins the race creates a buffer of this capacity
   describe("cap=%zu %s handles=[", S->cap, S->concurrent ? "concurrent" : "sequential");
   for (int i = 0; i < nh; i++) describe("%s%zu", i ? "," : "", args[i]);
-  describe("]");
-  // creator in process 1
-  Task *c = spawn(1, [&args]() { open_handle(args[0]); });
+  describe("]%s", racing ? " racing-first-open" : "");
+  // creator in process 1 (possibly raced by a second process, decided above)
+  Task *c = spawn(1, [&args, racing]() { open_handle(args[0], racing); });
   (void)c;
+  if (racing) { spawn(2, [&args]() { open_handle(args[1], true); }); probe("buf.concurrent_first_open"); }
   wait_all_others();
+  int first_late = racing ? 2 : 1;
+  // whoever won the race created the buffer: its size argument is the capacity, the other one's was ignored
+  if (racing) for (int h = 0; h < S->nh; h++) if (S->hs[h].created) S->cap = S->hs[h].size_arg;
+  for (int h = 0; h < S->nh; h++) if (S->hs[h].size_arg < S->cap) S->smaller_handle_present = true;
+  (void)first_late;
   if (!S->concurrent) {
     // all handles live in up to two processes; one task at a time
     for (int i = 1; i < nh; i++) { int proc = 1 + (int)gen(2); spawn(proc, [&args, i]() { open_handle(args[i]); }); wait_all_others(); }
@@ -193,7 +208,13 @@ void root() {
     // invariant through every handle: used + free == capacity
     for (int h = 0; h < S->nh; h++) { spawn(S->hs[h].proc, [h]() { do_op(h, K_USED, 0); do_op(h, K_FREE, 0); }); wait_all_others(); }
   } else {
-    for (int i = 1; i < nh; i++) { int proc = 1 + i; spawn(proc, [&args, i]() { open_handle(args[i]); }); wait_all_others(); }
+    for (int i = first_late; i < nh; i++) { int proc = 1 + i; spawn(proc, [&args, i]() { open_handle(args[i]); }); wait_all_others(); }
+    for (int h = 1; h < S->nh; h++) {
+      if (S->hs[h].seg_obj != S->hs[0].seg_obj) violate("creators_not_on_one_segment", "concurrent_first_time_creators", "handles of one buffer name ended up on different segments");
+      if (S->hs[h].lock_obj != S->hs[0].lock_obj)
+        violate("creators_on_different_locks", (S->hs[h].adopted_empty || S->hs[0].adopted_empty) ? "concurrent_first_time_creators,handle_on_segment_found_empty" : "concurrent_first_time_creators",
+                "handles of one buffer name opened concurrently for the first time use different lock semaphores: their operations are not atomic with respect to each other");
+    }
     int total = 0;
     for (int h = 0; h < S->nh; h++) { int n = (int)gen_range(2, tier ? 8 : 5); total += n; int proc = S->hs[h].proc; spawn(proc, [h, n]() { ops_loop(h, n); }); }
     if (S->nh == 1) { int n = (int)gen_range(2, 5); spawn(1, [n]() { ops_loop(0, n); }); }
